@@ -388,7 +388,9 @@ func walkWrapper(w protoreflect.Message, top string, p []step, pname string, out
 		cut := cut
 		add(fmt.Sprintf("value:trunc@%d", cut), false, func(mm protoreflect.Message) { mm.Set(vfd, protoreflect.ValueOfBytes(mm.Get(vfd).Bytes()[:cut])) })
 	}
-	add("value:+00", false, func(mm protoreflect.Message) { mm.Set(vfd, protoreflect.ValueOfBytes(append(bytes.Clone(mm.Get(vfd).Bytes()), 0))) })
+	add("value:+00", false, func(mm protoreflect.Message) {
+		mm.Set(vfd, protoreflect.ValueOfBytes(append(bytes.Clone(mm.Get(vfd).Bytes()), 0)))
+	})
 	for _, name := range []string{"key_material_type", "output_prefix_type"} {
 		efd := fds.ByName(protoreflect.Name(name))
 		if efd == nil {
@@ -728,7 +730,9 @@ func primaryIndex(ks *tinkpb.Keyset) int {
 
 func ksCatalogue(ks *tinkpb.Keyset) []ksMut {
 	var out []ksMut
-	add := func(name string, reduced bool, f func(ks *tinkpb.Keyset, t int)) { out = append(out, ksMut{name, reduced, f}) }
+	add := func(name string, reduced bool, f func(ks *tinkpb.Keyset, t int)) {
+		out = append(out, ksMut{name, reduced, f})
+	}
 	add("empty-keyset", true, func(ks *tinkpb.Keyset, t int) { ks.Key = nil })
 	add("empty-keyset(primary=0)", false, func(ks *tinkpb.Keyset, t int) { ks.Key = nil; ks.PrimaryKeyId = 0 })
 	add("primary=missing(0-or-unused)", true, func(ks *tinkpb.Keyset, t int) { ks.PrimaryKeyId = unusedID(ks, 0) })
@@ -851,7 +855,9 @@ func ksCatalogue(ks *tinkpb.Keyset) []ksMut {
 		ks.Key[t].KeyData.TypeUrl = u
 	})
 	add("type_url=trailing-space", false, func(ks *tinkpb.Keyset, t int) { ks.Key[t].KeyData.TypeUrl += " " })
-	add("type_url=no-prefix", false, func(ks *tinkpb.Keyset, t int) { ks.Key[t].KeyData.TypeUrl = strings.TrimPrefix(ks.Key[t].KeyData.TypeUrl, "type.googleapis.com/") })
+	add("type_url=no-prefix", false, func(ks *tinkpb.Keyset, t int) {
+		ks.Key[t].KeyData.TypeUrl = strings.TrimPrefix(ks.Key[t].KeyData.TypeUrl, "type.googleapis.com/")
+	})
 	return out
 }
 
